@@ -296,7 +296,7 @@ structure PlainOp (op : Op) : Prop where
   labels : ∀ l ∈ op.labels, l ∉ reservedNames
   arity : op.qregs.length ≤ 2
 
-theorem parse_cases {op : Op} (hwf : OpWF op) (hp : PlainOp op) :
+theorem parse_cases_of_arity {op : Op} (hwf : OpWF op) (har : op.qregs.length ≤ 2) :
     (op.qregs.map (·.ty) = [.e] ∧ op.parseQRegTypes = "Emitter") ∨ (op.qregs.map (·.ty) = [.p] ∧ op.parseQRegTypes = "Photonic") ∨
     (op.qregs.map (·.ty) = [.e, .e] ∧ op.parseQRegTypes = "Emitter-Emitter") ∨
     (op.qregs.map (·.ty) = [.e, .p] ∧ op.parseQRegTypes = "Emitter-Photonic") ∨
@@ -304,7 +304,6 @@ theorem parse_cases {op : Op} (hwf : OpWF op) (hp : PlainOp op) :
     (op.qregs.map (·.ty) = [.p, .p] ∧ op.parseQRegTypes = "Photonic-Photonic") := by
   have hq := hwf.qregs_quantum
   have hne := hwf.qregs_ne
-  have har := hp.arity
   unfold Op.parseQRegTypes
   cases hqs : op.qregs with
   | nil => exact absurd hqs hne
@@ -335,19 +334,27 @@ theorem parse_cases {op : Op} (hwf : OpWF op) (hp : PlainOp op) :
           | e => right; right; right; right; left; simp [hta, htb]; rfl
           | p => right; right; right; right; right; simp [hta, htb]; rfl
 
+theorem parse_cases {op : Op} (hwf : OpWF op) (hp : PlainOp op) :
+    (op.qregs.map (·.ty) = [.e] ∧ op.parseQRegTypes = "Emitter") ∨ (op.qregs.map (·.ty) = [.p] ∧ op.parseQRegTypes = "Photonic") ∨
+    (op.qregs.map (·.ty) = [.e, .e] ∧ op.parseQRegTypes = "Emitter-Emitter") ∨
+    (op.qregs.map (·.ty) = [.e, .p] ∧ op.parseQRegTypes = "Emitter-Photonic") ∨
+    (op.qregs.map (·.ty) = [.p, .e] ∧ op.parseQRegTypes = "Photonic-Emitter") ∨
+    (op.qregs.map (·.ty) = [.p, .p] ∧ op.parseQRegTypes = "Photonic-Photonic") :=
+  parse_cases_of_arity hwf hp.arity
+
 theorem mem_indexKeys_iff {op : Op} (l : String) :
     l ∈ op.indexKeys ↔ l ∈ op.labels ∨ l = op.kind.name ∨ l = op.parseQRegTypes := by
   simp [Op.indexKeys]
 
-/-- for plain operations the label query of `CircuitCnotCount` selects exactly the emitter–emitter CNOTs -/
-theorem cnot_keys_iff {op : Op} (hwf : OpWF op) (hp : PlainOp op) :
+/-- the label query of `CircuitCnotCount` selects exactly the emitter–emitter CNOTs — for every operation on at most two quantum
+    registers none of whose labels is "Emitter-Emitter" or "CNOT" (any other user label admitted) -/
+theorem cnot_keys_iff_of {op : Op} (hwf : OpWF op) (har : op.qregs.length ≤ 2) (hl1 : "Emitter-Emitter" ∉ op.labels)
+    (hl2 : "CNOT" ∉ op.labels) :
     ("Emitter-Emitter" ∈ op.indexKeys ∧ "CNOT" ∈ op.indexKeys) ↔ (op.kind = .cnot ∧ op.qregs.map (·.ty) = [.e, .e]) := by
   rw [mem_indexKeys_iff, mem_indexKeys_iff]
-  have hl1 : "Emitter-Emitter" ∉ op.labels := fun h => hp.labels _ h (by decide)
-  have hl2 : "CNOT" ∉ op.labels := fun h => hp.labels _ h (by decide)
   have hk1 : "Emitter-Emitter" ≠ op.kind.name := by cases op.kind <;> decide
   have hk2 : "CNOT" = op.kind.name ↔ op.kind = .cnot := by cases op.kind <;> decide
-  have hpc := parse_cases hwf hp
+  have hpc := parse_cases_of_arity hwf har
   constructor
   · rintro ⟨h1 | h1 | h1, h2 | h2 | h2⟩
     all_goals first
@@ -365,13 +372,18 @@ theorem cnot_keys_iff {op : Op} (hwf : OpWF op) (hp : PlainOp op) :
     rcases hpc with ⟨a, b⟩ | ⟨a, b⟩ | ⟨a, b⟩ | ⟨a, b⟩ | ⟨a, b⟩ | ⟨a, b⟩ <;> rw [a] at h2 <;>
       first | exact b.symm | exact absurd h2 (by decide)
 
-/-- … and the label query of `CircuitMeasureCount` exactly the measure-and-reset operations -/
-theorem mcr_keys_iff {op : Op} (hwf : OpWF op) (hp : PlainOp op) :
+/-- for plain operations the label query of `CircuitCnotCount` selects exactly the emitter–emitter CNOTs -/
+theorem cnot_keys_iff {op : Op} (hwf : OpWF op) (hp : PlainOp op) :
+    ("Emitter-Emitter" ∈ op.indexKeys ∧ "CNOT" ∈ op.indexKeys) ↔ (op.kind = .cnot ∧ op.qregs.map (·.ty) = [.e, .e]) :=
+  cnot_keys_iff_of hwf hp.arity (fun h => hp.labels _ h (by decide)) (fun h => hp.labels _ h (by decide))
+
+/-- … and the label query of `CircuitMeasureCount` exactly the measure-and-reset operations — for every operation on at most two
+    quantum registers not labelled "MeasurementCNOTandReset" -/
+theorem mcr_keys_iff_of {op : Op} (hwf : OpWF op) (har : op.qregs.length ≤ 2) (hl : "MeasurementCNOTandReset" ∉ op.labels) :
     "MeasurementCNOTandReset" ∈ op.indexKeys ↔ op.kind = .mcr := by
   rw [mem_indexKeys_iff]
-  have hl : "MeasurementCNOTandReset" ∉ op.labels := fun h => hp.labels _ h (by decide)
   have hk : "MeasurementCNOTandReset" = op.kind.name ↔ op.kind = .mcr := by cases op.kind <;> decide
-  have hpc := parse_cases hwf hp
+  have hpc := parse_cases_of_arity hwf har
   constructor
   · rintro (h | h | h)
     · exact absurd h hl
@@ -379,6 +391,10 @@ theorem mcr_keys_iff {op : Op} (hwf : OpWF op) (hp : PlainOp op) :
     · exfalso
       rcases hpc with ⟨a, b⟩ | ⟨a, b⟩ | ⟨a, b⟩ | ⟨a, b⟩ | ⟨a, b⟩ | ⟨a, b⟩ <;> rw [b] at h <;> exact absurd h (by decide)
   · intro h; exact Or.inr (Or.inl (hk.mpr h))
+
+theorem mcr_keys_iff {op : Op} (hwf : OpWF op) (hp : PlainOp op) :
+    "MeasurementCNOTandReset" ∈ op.indexKeys ↔ op.kind = .mcr :=
+  mcr_keys_iff_of hwf hp.arity (fun h => hp.labels _ h (by decide))
 
 end Metrics
 end Graphiq
